@@ -7,7 +7,7 @@ def main():
     c = Check("C16", a.tier, a.seed)
     if a.replay:
         r = json.load(open(a.replay)); c.seed, c.tier = r["seed"], r["tier"]
-    ok_mk, log = c.make(["Model/C16Run.vo"] + props("C16")[2])
+    ok_mk, log = c.make(["Model/C16Run.vo", "Model/C16Run2.vo"] + props("C16")[2])
     thms = theorems_of(*props("C16")[0])
     assumptions = c.audit(props("C16")[1], thms) if ok_mk else {}
     binary = c.build_harness("release")
@@ -34,7 +34,7 @@ def main():
             if cli:
                 counts, mism, total = c.run_model(cli, "c16", casefile)
                 if mism:
-                    c.broken.append("Model/Dedup.v disagrees with compress+decompress on %d cases, first: %s" % (total[1], mism[0][:300]))
+                    c.broken.append("Model/FriCompress.v / Model/Dedup.v disagree with FriProof::compress / decompress / get_inferred_elements on %d cases, first: %s" % (total[1], mism[0][:300]))
     for f in fails[:10]:
         c.violation(f, "lossless and verification-equivalent", f["detail"],
                     "compression property failed: %s (%s)" % (f["case"], re.sub(r"\d+", "N", f["detail"])[:120]))
@@ -42,14 +42,16 @@ def main():
         print("replay: %d failing cases" % len(fails)); sys.exit(1 if c.violations else 0)
     coverage = {
         "obligations": len(thms), "discharged": len([t for t in thms if assumptions.get(t, "").startswith("Closed")]),
-        "checker_cmd": "make -C coq Props/C16.vo && coqc Audit (Print Assumptions)",
-        "trusted_base": ["Coq 8.16.1 kernel", "extraction (ExtrOcamlBasic, ExtrOcamlZBigInt) for the dedup correspondence",
-                         "harness/src/c16.rs"],
+        "checker_cmd": "make -C coq Props/C16.vo Props/C16b.vo && coqc Audit (Print Assumptions)",
+        "trusted_base": ["Coq 8.16.1 kernel", "extraction (ExtrOcamlBasic, ExtrOcamlZBigInt) for the correspondence ops dedup / fricompress / fridecompress / friinferred",
+                         "harness/src/c16.rs, harness/src/c16b.rs", "hash functions abstract in the theorems (collision exhibited as a value)"],
         "theorems": {t: assumptions.get(t, "not checked") for t in thms},
         "evaluations": n, "distinct_nontrivial": len(dist), "distribution": dist, "samples": samples or ["none"],
         "collision_statistics": stats, "dedup_correspondence_cases": total[0], "dedup_mismatches": total[1],
-        "rule": "accepted proofs with 20-80 queries on 2^3..2^5-row circuits (repeated indices and shared cosets are the norm); lossless round trip, both verifiers accept, byte round trip, single-leaf tampering of the compressed form compared with decompress+verify",
+        "model_correspondence_cases": total[0], "model_correspondence_mismatches": total[1], "model_counts": counts,
+        "rule": "accepted proofs with 20-80 queries on 2^3..2^5-row circuits (repeated indices and shared cosets are the norm); lossless round trip, both verifiers accept, byte round trip, single-leaf tampering of the compressed form compared with decompress+verify; altered originals (public inputs of the wrong length, edits outside the per-query data) verified plainly and via compress+verify_compressed; FriProof::compress / CompressedFriProof::decompress / get_inferred_elements replayed by Model/FriCompress.v on real proofs and on inconsistent inputs (altered data under a repeated index, missing map entries, too few / too many inferred elements, other index orders)",
     }
     c.finish("proof", coverage, [
-        "the theorem covers the first-insert-wins map core of compress/decompress (tied by the dedup correspondence); the full FriProof transposition and Merkle path compression are exercised on the implementation only",
+        "Props/C16b.v: decompress (compress p) = p for every proof accepted by the FRI verifier model, or an explicit hash collision; the PLONK-level wrapper (CompressedProof: the same FRI compression plus verbatim fields) is covered by correspondence",
+        "verification equivalence: verify_compressed is decompress followed by the ordinary checks in the code; the equivalence on altered originals is compared on the implementation",
         "a panic of the compressed path counts as rejection here (reported under C18)"])
